@@ -2238,6 +2238,9 @@ func (d *DB) DeleteCanceledInvoices(_ context.Context) error {
 
 		payAddrIndex := tx.ReadWriteBucket(payAddrIndexBucket)
 
+		// settleIndex can be nil, as the bucket is created lazily.
+		settleIndex := invoices.NestedReadWriteBucket(settleIndexBucket)
+
 		return invoiceIndex.ForEach(func(k, v []byte) error {
 			// Skip the special numInvoicesKey as that does not
 			// point to a valid invoice.
@@ -2274,7 +2277,7 @@ func (d *DB) DeleteCanceledInvoices(_ context.Context) error {
 				key := payAddrIndex.Get(
 					invoice.Terms.PaymentAddr[:],
 				)
-				if bytes.Equal(key, k) {
+				if bytes.Equal(key, v) {
 					// Delete from the payment address
 					// index.
 					if err := payAddrIndex.Delete(
@@ -2295,17 +2298,26 @@ func (d *DB) DeleteCanceledInvoices(_ context.Context) error {
 
 			// Note that we don't need to delete the invoice from
 			// the settle index as it is not added until the
-			// invoice is settled.
+			// invoice is settled. Only the sets of an AMP invoice
+			// may have been settled before it was canceled.
+			if settleIndex != nil {
+				err = delAMPSettleIndex(v, invoices, settleIndex)
+				if err != nil {
+					return err
+				}
+			}
 
-			// Now remove all sub invoices.
-			err = delAMPInvoices(k, invoices)
+			// Now remove all sub invoices. Like the serialized
+			// invoice they are stored under the invoice number (v),
+			// not under the payment hash (k).
+			err = delAMPInvoices(v, invoices)
 			if err != nil {
 				return err
 			}
 
 			// Finally remove the serialized invoice from the
 			// invoice bucket.
-			return invoices.Delete(k)
+			return invoices.Delete(v)
 		})
 	}, func() {})
 }
